@@ -225,7 +225,7 @@ def setup(tier, seed):
     jobs = _jobs(tier)
     return {
         'jobs': jobs,
-        'budget_s': 900 if tier == 'quick' else 3300,
+        'budget_s': 780 if tier == 'quick' else 3300,
         'explanation': 'product program: run A of research.backtest on candles X and run B on X[:t]+Y[t:] (Y fresh symbols) on one path; a recording '
                        'strategy logs every hook with time, visible candles of every route timeframe (length and last two rows), price, position, '
                        'balance, margin; the Order wrappers log submissions, fills, cancellations; z3 proves every entry of the two logs with '
